@@ -1740,6 +1740,8 @@ func c11DirectSignatures(p *Program, r *Report, m *vmModel) {
 		bad = fmt.Sprintf("the creator's arity limit is %d but its largest concrete signature has %d parameters", limit, max)
 	case set(created) != set(recognised):
 		bad = "created arities " + set(created) + " but recognised arities " + set(recognised)
+	case set(called) != set(recognised):
+		bad = "recognised arities " + set(recognised) + " but the direct path calls functions of arities " + set(called) + ": a recognised function is never called"
 	}
 	r.Check(bad == "", "C11.R2", funcName(creator)+"|concrete signatures agree with "+caller.Name(), p.Pos(creator.Pos()), "arities "+set(created)+" created, recognised and limited alike", bad)
 	// every function variable of the direct caller that is called is assigned
